@@ -76,7 +76,9 @@ func raIDs(p *types.CertificateBuildParams) (string, string) {
 
 func raShow(tag string, q *types.CertificateBuildParams) string {
 	b, c := raIDs(q)
-	return fmt.Sprintf("%s %d %d b=%s c=%s size=%d", tag, q.FromBlock, q.ToBlock, b, c, q.EstimatedSize())
+	// what a cut must carry over besides the events: whether this is a retry, and the certificate type
+	return fmt.Sprintf("%s %d %d b=%s c=%s size=%d retry=%s fep=%s", tag, q.FromBlock, q.ToBlock, b, c, q.EstimatedSize(),
+		b2s(q.IsARetry()), b2s(q.CertificateType == types.CertificateTypeFEP))
 }
 
 // expected ids of the events of p whose block lies in [f,t], in order
@@ -141,6 +143,9 @@ func raExec(r *Run, line string) {
 			return
 		}
 		r.Emit(line, raShow("range", q))
+		if q.IsARetry() != p.IsARetry() || q.CertificateType != p.CertificateType {
+			r.Fail(fmt.Sprintf("Range(%d,%d) of [%d,%d]: the cut is a retry: %v / type %v, the certificate it was cut from: %v / %v — a cut certificate loses what decides whether it may be cut at all", f, t, p.FromBlock, p.ToBlock, q.IsARetry(), q.CertificateType, p.IsARetry(), p.CertificateType), []string{line})
+		}
 		wb, wc := raFilterIDs(p, f, t)
 		gb, gc := raIDs(q)
 		if gb != wb || gc != wc || q.FromBlock != f || q.ToBlock != t {
